@@ -457,6 +457,23 @@ def dims_equal(a, b):
     return z3.is_true(simp(lift(a) == lift(b))) or cur().entails(lift(a) == lift(b))
 
 
+class TorchElem(Sym):
+    """A 0-dim torch view: the value of `arr[idx]` at the time of the read, plus where it lives.  Behaves as a scalar `Sym`
+    everywhere; only in-place operators (Interp.inplace) look at the origin.  `.item()` / arithmetic give plain values."""
+
+    __slots__ = ("arr", "idx", "stamp")
+
+    def __init__(self, t, arr, idx, stamp):
+        Sym.__init__(self, t)
+        self.arr, self.idx, self.stamp = arr, idx, stamp
+
+    def item(self):
+        return Sym(self.t)
+
+    def clone(self):
+        return Sym(self.t)
+
+
 class SymArr:
     """N-d array / sequence: `shape` tuple of int|Sym, `fn(*index_terms) -> value` (Sym or python number).
 
@@ -826,7 +843,13 @@ class SymArr:
         if not new_shape and not any(p[0] != "int" for p in plan):
             if self.pylist or True:
                 # scalar element access returns the element itself
-                return self.fn(*[lift(p[1]) for p in plan])
+                v = self.fn(*[lift(p[1]) for p in plan])
+                if (not self.pylist and type(v) is Sym and not v.is_bool
+                        and getattr(getattr(self, "as_type", None), "__name__", "") == "Tensor"):
+                    # torch: x[i] with integer indices is a 0-dim VIEW of x - `t = x[i]; t += v` writes x[i] (numpy returns a
+                    # scalar copy).  The value carries its origin so that an in-place operator on it can write through.
+                    return TorchElem(v.t, self, tuple(lift(p[1]) for p in plan), self.writes)
+                return v
         has_arr = any(p[0] == "arr" for p in plan)
         r = SymArr(tuple(new_shape), fn, self.kind, self.pylist and self.ndim == 1 and not has_arr and len(new_shape) == 1,
                    base=None if has_arr else self.base)
